@@ -155,8 +155,8 @@ def tl(x):
 
 class Prop:
     ID = "C19"
-    LEVEL = "exploration"
-    COQ_HEADER = ""; CHECK_FN = ""
+    LEVEL = "proof"
+    COQ_HEADER = "From TN Require Import Harness.H_C19.\nFrom Coq Require Import QArith.\n"; CHECK_FN = "check"
     RULE = ("row/column sizes factorised into d=1..4 factors (all ordered factorisation pairs with sizes <= 6 and d <= 3 in the "
             "thorough tier, a seeded sample of them plus random d<=4 factors 1..3 in the quick tier, unequal row and column "
             "factors, factors 1 included); TTMatrix from a dense integer matrix with sufficient ranks (round trip), with random "
@@ -177,7 +177,9 @@ class Prop:
                    "because the constructor only accepts a dense matrix",
                    "trace of a matrix that is square only overall (row factors != column factors) may raise or must equal the dense trace",
                    "Cholesky and inverse are compared at 1e-6 relative to the largest entry on well-conditioned integer blocks (cond < 50)"]
-    THEOREMS = []
+    THEOREMS = ["C19_tt_multiply", "C19_tt_multiply_flat", "C19_trace", "C19_trace_flat", "C19_interleave_roundtrip",
+                "C19_interleave_in_range", "C19_cp_torch", "C19_cp_multiply", "C19_kron_entry", "C19_kron_mixed_product",
+                "C19_kron_inverse", "C19_kron_cholesky"]
 
     # ------------------------------------------------------------------ generation
     def generate(self, rng, tier):
@@ -545,4 +547,33 @@ class Prop:
                                         np.shape(case.get("v", [])), t.get("via"))
 
     def coq_term(self, case, res):
+        """the cores held by the implementation's TTMatrix / CPMatrix (exact doubles as rationals) are decompressed,
+        traced and multiplied by the Coq model; compared with torch(), trace(), tt_multiply / cp_multiply"""
+        from fractions import Fraction
+        if not res.get("ok") or case.get("batch", 0) or "dense" not in res:
+            return None
+        op = case["op"]
+        ind, outd = list(case["ind"]), list(case["outd"])
+        if int(np.prod(ind)) * int(np.prod(outd)) > 150:
+            return None
+        qx = lambda x: qlit(Fraction(float(x)))
+        ql = lambda a: coq_list(np.array(a, dtype=float).reshape(-1).tolist(), qx, "Q")
+        rows = lambda a, n: "[" + "; ".join(ql(r) for r in np.array(a, dtype=float).reshape(-1, n)) + "]"
+        I, O = int(np.prod(ind)), int(np.prod(outd))
+        if op in ("ttm_dense", "ttm_cores", "kron"):
+            cs = res["cores"][0]
+            cores = "[" + "; ".join("lit_mc %d %d %d %d %s" % (np.array(c).shape + (ql(c),)) for c in cs) + "]"
+            tr = "None"
+            if op != "kron" and ind == outd and res.get("trace") is not None:
+                tr = "(Some %s)" % qx(res["trace"])
+            if "mult" in res:
+                v, m = rows(case["v"], I), rows(res["mult"], O)
+            else:
+                v, m = "[]", "[]"
+            return "KT %s %s %s %s %s" % (cores, ql(res["dense"]), tr, v, m)
+        if op in ("cpm_dense", "cpm_cores"):
+            cs = res["cores"]
+            R = np.array(cs[0]).shape[-1]
+            cores = "[" + "; ".join("lit_cpc %d %d %d %s" % (np.array(c).shape + (ql(c),)) for c in cs) + "]"
+            return "KC %d%%nat %s %s %s %s" % (R, cores, ql(res["dense"]), rows(case["v"], I), rows(res["mult"], O))
         return None
